@@ -5,10 +5,12 @@ package c03
 import (
 	"encoding/json"
 	"fmt"
+	"io"
 	"regexp"
 	"strconv"
 	"strings"
 	"testing"
+	"testing/iotest"
 
 	"github.com/elliotchance/gedcom/v39"
 	"pgregory.net/rapid"
@@ -53,7 +55,16 @@ func check(c crashCase) (fl *harness.Failure, outcome string) {
 			doc, err = gedcom.NewDocumentFromString(data)
 			return
 		}
-		dec := gedcom.NewDecoder(strings.NewReader(data))
+		var r io.Reader = strings.NewReader(data)
+		switch c.Via {
+		case "one-byte-reader":
+			r = iotest.OneByteReader(r) // how the bytes arrive is not part of the byte stream
+		case "half-reader":
+			r = iotest.HalfReader(r)
+		case "data-err-reader":
+			r = iotest.DataErrReader(r) // the last bytes arrive together with io.EOF
+		}
+		dec := gedcom.NewDecoder(r)
 		dec.AllowMultiLine, dec.AllowInvalidIndents = c.MultiLine, c.InvalidInds
 		doc, err = dec.Decode()
 	}()
@@ -182,11 +193,12 @@ func genData() *rapid.Generator[string] {
 
 func TestCheckNoCrash(t *testing.T) {
 	s := harness.NewSub("generated-streams",
-		"byte streams from 10 classes (uniform bytes <= 4096, GEDCOM-alphabet bytes, structured text truncated at a random offset, byte-mutated structured text, adversarial constants from the quantifier (first line above level 0, role lines before/outside families, nested records, empty values, NUL, BOM fragments) alone/concatenated/mutated, role and record lines at random levels, 1 MB lines, 3000-level nesting, random unicode) x AllowMultiLine x AllowInvalidIndents, plus NewDocumentFromString; non-trivial = every distinct (input, options); outcome classes in the histogram")
+		"byte streams from 10 classes (uniform bytes <= 4096, GEDCOM-alphabet bytes, structured text truncated at a random offset, byte-mutated structured text, adversarial constants from the quantifier (first line above level 0, role lines before/outside families, nested records, empty values, NUL, BOM fragments) alone/concatenated/mutated, role and record lines at random levels, 1 MB lines, 3000-level nesting, random unicode) x AllowMultiLine x AllowInvalidIndents, plus NewDocumentFromString; the decoder reads from a plain reader or (three fifths) from one that hands over one byte at a time, half of what is asked for, or the last bytes together with io.EOF; non-trivial = every distinct (input, options); outcome classes in the histogram")
 	s.Rapid(t, harness.Share(harness.Pick(60000, 3000000)), 30, func(rt *rapid.T) {
 		data := genData().Draw(rt, "data")
+		via := rapid.SampledFrom([]string{"", "", "one-byte-reader", "half-reader", "data-err-reader"}).Draw(rt, "via")
 		for o := 0; o < 5; o++ {
-			c := crashCase{Data: gen.Str(data), MultiLine: o&1 != 0, InvalidInds: o&2 != 0}
+			c := crashCase{Data: gen.Str(data), MultiLine: o&1 != 0, InvalidInds: o&2 != 0, Via: via}
 			if o == 4 {
 				c = crashCase{Data: gen.Str(data), Via: "string"}
 			}
